@@ -4,6 +4,7 @@
 //!       `P <workers>`                        (parallelism: jobs 0..k-2 each wait until job k-1 has started)
 //!       `W <workers> <jobs> <style> <salt>`  (paced submission: jobs take 0.2-2 ms; before job i is handed to execute() the submitter
 //!                                             waits 0-400 us, or until job i-1 has started - so submissions meet busy workers and a non-empty queue)
+//!       `U <workers> <jobs> 0 <salt>`      (the submitting thread panics after <jobs> jobs: the pool is shut down by unwinding)
 //! impl: `<trace> counts=<ok|bad:j=c> [par=<ok|TIMEOUT>]` with trace tokens
 //!       S D J R L<w> U<w> X<w> B<j>.<w> E<j>
 use crate::util::*;
@@ -84,6 +85,24 @@ pub fn run(case: &str) -> String {
         let log = verif::take_log();
         return format!("{} counts={}", show(&log), if bad.is_empty() { "ok".to_string() } else { format!("bad:{}", bad.join("/")) });
     }
+    if f[0] == "U" {
+        // the submitting thread panics after handing over `njobs` jobs (jobs of 1-3 ms, so some are queued or in flight): the pool
+        // is shut down by unwinding, and that shutdown too returns only after every submitted job has finished
+        let counts: Arc<Vec<AtomicUsize>> = Arc::new((0..njobs).map(|_| AtomicUsize::new(0)).collect());
+        let plan: Vec<u64> = (0..njobs).map(|_| 1000 + rng.below(2000)).collect();
+        let (counts2, to2) = (counts.clone(), timed_out.clone());
+        let it = (0..=njobs).map(move |i| {
+            if i == njobs { panic!("scripted panic of the submitting thread"); }
+            Job { id: i, counts: counts2.clone(), work: plan[i], wait_for: None, signal: None, timed_out: to2.clone() }
+        });
+        let prev = std::panic::take_hook();
+        std::panic::set_hook(Box::new(|_| {}));
+        let r = std::panic::catch_unwind(std::panic::AssertUnwindSafe(|| verif::verif_run_pool(workers, it)));
+        let bad: Vec<String> = counts.iter().enumerate().filter(|(_, c)| c.load(Ordering::SeqCst) != 1).map(|(i, c)| format!("{}={}", i, c.load(Ordering::SeqCst))).collect();
+        std::panic::set_hook(prev);
+        let log = verif::take_log();
+        return format!("{} counts={} unwound={}", show(&log), if bad.is_empty() { "ok".to_string() } else { format!("bad:{}", bad.join("/")) }, if r.is_err() { "ok" } else { "NOPANIC" });
+    }
     let counts: Arc<Vec<AtomicUsize>> = Arc::new((0..njobs).map(|_| AtomicUsize::new(0)).collect());
     let jobs: Vec<Job> = (0..njobs).map(|i| Job { id: i, counts: counts.clone(),
         work: match style { 0 => 0, 1 => 1, 2 => 2 + rng.below(200), _ => *rng.pick(&[0u64, 0, 1, 1, 20, 150]) }, wait_for: None, signal: None, timed_out: timed_out.clone() }).collect();
@@ -96,7 +115,7 @@ pub fn run(case: &str) -> String {
 pub fn gen(ctx: &Ctx) {
     let mut rng = Rng::new(ctx.seed, "pool");
     let mut out = Out::new(&ctx.dir, "pool");
-    out.rule = "real executions of the pool (1..8 workers, 0..200 jobs; no-op / yielding / sleeping / mixed jobs) recorded as event traces; plus paced submissions (1..4 workers, 2..12 jobs of 0.2-2 ms, each handed to execute() after a 0-400 us pause or once its predecessor has started, so that submissions meet busy workers); plus parallelism runs where k-1 jobs wait for the k-th \
+    out.rule = "real executions of the pool (1..8 workers, 0..200 jobs; no-op / yielding / sleeping / mixed jobs) recorded as event traces; plus paced submissions (1..4 workers, 2..12 jobs of 0.2-2 ms, each handed to execute() after a 0-400 us pause or once its predecessor has started, so that submissions meet busy workers); plus runs whose submitting thread panics after 1..10 jobs of 1-3 ms (shutdown by unwinding); plus parallelism runs where k-1 jobs wait for the k-th \
                 to start on a k-worker pool (5 s timeout). Schedules are whatever the OS produces (sampled, not enumerated). non-trivial = at least 2 jobs and 2 workers".into();
     let n = if ctx.thorough { 5000 } else { 200 };
     for _ in 0..n {
@@ -111,6 +130,12 @@ pub fn gen(ctx: &Ctx) {
         let case = format!("W {} {} {} {}", w, rng.range(2, 12), rng.below(4), rng.below(1 << 30));
         let r = run(&case);
         out.emit(&case, &r, &format!("paced/w{w}"), true);
+    }
+    for _ in 0..(if ctx.thorough { 200 } else { 12 }) {
+        let w = rng.range(1, 4);
+        let case = format!("U {} {} 0 {}", w, rng.range(1, 10), rng.below(1 << 30));
+        let r = run(&case);
+        out.emit(&case, &r, &format!("unwinding-shutdown/w{w}"), true);
     }
     for k in 2..=8 {
         for rep in 0..(if ctx.thorough { 10 } else { 3 }) {
